@@ -269,7 +269,9 @@ void xd_check(xd_t *d, int want)
                 ld err = 0, xm = 0; for (int i = 0; i < n; ++i) { zq v; el_get(vt, d->xval, (long)k * d->ldx + i, &v.re, &v.im); ld e = cmag(vt, zq_sub(v, xt[i])); if (e > err) err = e; ld a = cmag(vt, v); if (a > xm) xm = a; }
                 double fr = rs_get(vt, d->ferr, k);
                 feat("ferr", fr); feat("ferr_true", xm > 0 ? (double)(err / xm) : 0);
-                if (xm > 0 && !(err / xm <= 40 * (ld)fr + 4 * ceps)) verdict_fail("C13:ferr_does_not_dominate", "rhs %d: true relative error %.3Le exceeds 40*ferr = %.3Le (kappa=%.2Lg, trans=%d equed=%d)", k, err / xm, 40 * (ld)fr, kappa, (int)d->trans, (int)d->equed);
+                /* the extended-precision reference solution is itself only accurate to about n*kappa*LDBL_EPSILON */
+                ld ref_unc = 8 * (ld)n * kappa * LDBL_EPSILON;
+                if (xm > 0 && !(err / xm <= 40 * (ld)fr + 4 * ceps + ref_unc)) verdict_fail("C13:ferr_does_not_dominate", "rhs %d: true relative error %.3Le exceeds 40*ferr = %.3Le (kappa=%.2Lg, trans=%d equed=%d)", k, err / xm, 40 * (ld)fr, kappa, (int)d->trans, (int)d->equed);
             }
             hx_free(b); hx_free(xt);
         }
